@@ -88,6 +88,7 @@ def k18_annotate(ctx, pid: str):
         from .kernels2 import build_manager
         obj = build_manager(I, mgr, V, mods, id_=ID, name=NAME)
         obj.attrs["modules"] = mods
+        obj.attrs["__open__"] = True
         return (obj, prod), {}
 
     def post(I, o):
